@@ -13,7 +13,7 @@
       spec        arbitrary nested dict / list specifications -> Parameters.from_dict / from_list, in-process and via
                   load_parameters(format_name="yml_str")
       intent      specifications rendered from an intent (see oracle)
-      sci/label   number_scientific.match and valid_label on enumerated strings
+      sci/label   convert_scientific_to_float (number_scientific.fullmatch) and valid_label on enumerated strings
 (3) oracle on the real code, independent of the model:
       O1 roundtrip: same labels in the same order, bit-equal numbers (NaN = NaN; the sign of zero is not compared),
          flags, expressions; value of an expression parameter = its expression on the loaded values; second cycle
@@ -48,6 +48,7 @@ REQUIRED_THEOREMS = [
     "loaded_expressions_consistent", "constructed_expressions_consistent",
     "constructed_sets_roundtrip_partial", "flatten_labels", "flatten_order", "numbering_spec", "definition_components", "defaults_then_overrides",
     "dict_eq_programmatic_partial", "dict_eq_programmatic_counterexample", "auto_label_spec",
+    "scientific_string_converted_iff_whole",
     "generated_convert_scientific_to_float_eq_model", "generated_sanitize_parameter_list_eq_model",
     "generated_deserialize_options_eq_model", "generated_retrieve_item_eq_model", "generated_Parameter_from_list_eq_model",
     "generated_flatten_parameter_dict_eq_model", "generated_Parameters_from_list_eq_model",
@@ -685,8 +686,8 @@ def gen_intent_case(rng, reserved_ok=False):
 def spec_representable(labels):
     """can the specification language express this set: all labels flat, or every label inside a group, no group that
     holds parameters and sub-groups, no short label the language reads as something else"""
+    import re
     from glotaran.parameter.parameter import RESERVED_LABELS
-    from glotaran.utils.sanitize import convert_scientific_to_float
     parts = [l.split(".") for l in labels]
     flat = all(len(p) == 1 for p in parts)
     if not flat and any(len(p) == 1 for p in parts):
@@ -697,10 +698,9 @@ def spec_representable(labels):
             return False
     for p in parts:
         short = p[-1]
-        try:
-            if not isinstance(convert_scientific_to_float(short), str):
-                return False
-        except ValueError:
+        # a short label that is a scientific-notation number in full is read as a number (the harness' own reading of
+        # the specification language, not the library's: a label that only starts like a number, 1e3x, is a label)
+        if re.fullmatch(r"[-+]?[0-9]*\.?[0-9]+[eE][-+]?[0-9]+", short):
             return False
         if not flat and short in RESERVED_LABELS:
             return False
@@ -774,14 +774,17 @@ def scanner_stream(ck, batch):
     if ck.quick:
         ck.rng.shuffle(strings)
         strings = strings[:6000]
-    strings += ["1e5", "1.5e-3", "٣e5", "1e٣", "１e5", " 1e5", "1e5 ", "1_0e5", "-.5E+07abc", "+.e5", "1.5.e3", "12.34e56", "infe5", "nan"]
+    strings += ["1e5", "1.5e-3", "٣e5", "1e٣", "１e5", " 1e5", "1e5 ", "1_0e5", "-.5E+07abc", "-.5E+07", "+.e5", "1.5.e3", "12.34e56", "infe5",
+                "nan", "1e3x", "1e3_4", "2e5_data.nc", "12e+5.nc", "1e3\n", "1e3e4", "1e400", "1e-400"]
     for s in strings:
         try:
             r = convert_scientific_to_float(s)
             impl = "T" if isinstance(r, float) else "F"
         except ValueError:
-            impl = "T"          # matched, float() refused
-        batch.op(f"sci {enc(s)}", (lambda ans, impl=impl, s=s: None if ans == impl else f"number_scientific.match({s!r}): implementation {impl}, model {ans}"),
+            impl = "raises"     # the pattern accepted the string and float() refused it: impossible with fullmatch, the model never answers this
+        batch.op(f"sci {enc(s)}", (lambda ans, impl=impl, s=s: None if ans == impl else
+                                   f"convert_scientific_to_float({s!r}): implementation {'converts' if impl == 'T' else 'keeps the string' if impl == 'F' else 'raises ValueError'}, "
+                                   f"model (number_scientific.fullmatch) {ans}"),
                  {"kind": "sci", "text": s}, "sci-match")
         ck.case(("sci", s), nontrivial=impl == "T")
         ck.count("sci:match=" + impl)
